@@ -250,6 +250,7 @@ func perPacket(b concBeh) [][]absRead {
 	var needL, needB int
 	for _, rd := range b.Reads {
 		switch {
+		case rd.F == "M": // a message boundary chosen by the transport, not a read
 		case rd.F == "T" && rd.N == 0: // empty read before a type byte: belongs to the next packet
 			if i+1 < len(out) {
 				out[i+1] = append(out[i+1], rd)
@@ -280,6 +281,98 @@ func perPacket(b concBeh) [][]absRead {
 		}
 	}
 	return out
+}
+
+func cutOf(isMsg bool, rs []absRead) string {
+	if isMsg {
+		return "msg+" + cutClass(rs)
+	}
+	return cutClass(rs)
+}
+
+// msgBehaviour: the transport is a MESSAGE transport (spec: Chunking = "msg"): the history carries the sizes of the
+// messages ("M" records) the peer sent; a Read gets min(asked, rest of the current message), the wrapper buffers the rest.
+func msgBehaviour(b concBeh) bool {
+	for _, rd := range b.Reads {
+		if rd.F == "M" {
+			return true
+		}
+	}
+	return false
+}
+
+// msgChunks maps the abstract message sizes onto the real encoding: sizes[i] = real encoded size of packet i.
+func msgChunks(b concBeh, sizes []int) []int {
+	// abstract layout of packet i: 1 type byte, 4 length bytes (not for heartbeats), wl body bytes
+	realOff := func(i, a int) int { // abstract offset a inside packet i -> real offset inside packet i
+		p, n := b.Pkts[i], sizes[i]
+		wl := p.Len
+		if p.Z {
+			wl++
+		}
+		switch {
+		case a <= 0:
+			return 0
+		case a <= 5 && n >= 5 || a <= 1:
+			if a > n {
+				return n
+			}
+			return a
+		}
+		rb := n - 5
+		c := a - 5
+		if c >= wl || rb <= 1 {
+			return n
+		}
+		x := c * rb / wl
+		if x < 1 {
+			x = 1
+		}
+		return 5 + x
+	}
+	absSize := func(i int) int {
+		p := b.Pkts[i]
+		if p.K == "HB" {
+			return 1
+		}
+		wl := p.Len
+		if p.Z {
+			wl++
+		}
+		return 5 + wl
+	}
+	var starts []int
+	tot := 0
+	for _, n := range sizes {
+		starts = append(starts, tot)
+		tot += n
+	}
+	var chunks []int
+	apos, last := 0, 0
+	for _, rd := range b.Reads {
+		if rd.F != "M" {
+			continue
+		}
+		apos += rd.N
+		// locate apos
+		i, rest := 0, apos
+		for i < len(b.Pkts) && rest >= absSize(i) {
+			rest -= absSize(i)
+			i++
+		}
+		r := tot
+		if i < len(b.Pkts) {
+			r = starts[i] + realOff(i, rest)
+		}
+		if r > last {
+			chunks = append(chunks, r-last)
+			last = r
+		}
+	}
+	if last < tot {
+		chunks = append(chunks, tot-last)
+	}
+	return chunks
 }
 
 func cutClass(rs []absRead) string {
@@ -564,6 +657,8 @@ func drive(env *fw.Env, b fw.Behaviour) *fw.Trace {
 	orig := make([]*packet.TransferPacket, len(beh.Pkts))
 	var pl planner
 	exact := true
+	isMsg := msgBehaviour(beh)
+	var encSizes []int
 	for i, p := range beh.Pkts {
 		orig[i] = build(p, r)
 		before := wire.Len()
@@ -581,17 +676,24 @@ func drive(env *fw.Env, b fw.Behaviour) *fw.Trace {
 			fl = p.Fl
 			cls += ":fl=" + fl
 		}
-		t.Events = append(t.Events, fw.Event{"ev": "Write", "i": i + 1, "ok": err == nil, "cls": cls, "cut": cutClass(pp[i]),
+		t.Events = append(t.Events, fw.Event{"ev": "Write", "i": i + 1, "ok": err == nil, "cls": cls, "cut": cutOf(isMsg, pp[i]),
 			"base": int(p.Type & 0x3F), "len": p.Size, "n": n, "wrote": wrote, "type": int(orig[i].PacketType), "fl": fl})
 		if err != nil {
 			wire.Truncate(before)
 			continue
 		}
+		encSizes = append(encSizes, wrote)
 		ops, ex := opsFor(p, pp[i], wrote, beh.Map)
 		exact = exact && ex
 		pl.packet(ops, wrote)
 	}
 	chunks := pl.finish()
+	if isMsg {
+		if len(encSizes) != len(beh.Pkts) {
+			return &fw.Trace{Status: fw.Unrealisable, Note: "the writer refused a packet of a message-transport behaviour"}
+		}
+		chunks, exact = msgChunks(beh, encSizes), false
+	}
 	data := wire.Bytes()
 
 	// 2. read with the real reader through the chosen transport
@@ -734,6 +836,13 @@ func subst(pk, ln, st int) map[string]string {
 func substContent(pk, ln int) map[string]string {
 	m := subst(pk, ln, 0)
 	m["CONTENTS"], m["CHUNK"] = `{"zeros", "random", "gzmagic", "gzstream", "hdrlike", "period"}`, "max"
+	return m
+}
+
+// substMsg: message transport with left-over buffering (WebSocket): the peer's message sizes are the transport's choice
+func substMsg(pk, ln int) map[string]string {
+	m := subst(pk, ln, 0)
+	m["CHUNK"] = "msg"
 	return m
 }
 
@@ -976,13 +1085,15 @@ func main() {
 		ID:        "C01",
 		DesignRef: "DESIGN.md §5 C01",
 		ModelJobs: func(env *fw.Env) []fw.TLCJob {
-			pk, ln := 2, 3
+			pk, ln, msgLen := 2, 3, 1
 			if env.Tier == "thorough" {
+				msgLen = 2
 				pk, ln = 3, 2 // with the flag dimension 3x3 is 4.2M states (10 min); 3x2 keeps thorough in minutes
 			}
 			return []fw.TLCJob{
 				{Name: "mc:contract", Module: "Framing", Cfg: "Framing_mc.cfg", Consts: subst(pk, ln, 1)},
 				{Name: "mc:as-found", Module: "Framing", Cfg: "Framing_mc_dev.cfg", Consts: subst(pk, ln, 1)},
+				{Name: "mc:msg-transport", Module: "Framing", Cfg: "Framing_mc.cfg", Consts: substMsg(2, msgLen)},
 			}
 		},
 		GenJobs: func(env *fw.Env) []fw.TLCJob {
@@ -990,6 +1101,9 @@ func main() {
 				{Name: "gen:2x1", Module: "Framing", Cfg: "Framing_gen.cfg", Consts: subst(2, 1, 0), Workers: 8},
 				{Name: "gen:1x3+stall", Module: "Framing", Cfg: "Framing_gen.cfg", Consts: subst(1, 3, 1), Workers: 8},
 				{Name: "gen:content2x1", Module: "Framing", Cfg: "Framing_gen.cfg", Consts: substContent(2, 1), Workers: 4},
+				{Name: "gen:msg1x2", Module: "Framing", Cfg: "Framing_gen.cfg", Consts: substMsg(1, 2), Workers: 4},
+				{Name: "sim:msg3x2", Module: "Framing", Cfg: "Framing_gen.cfg", Consts: substMsg(3, 2), Workers: 4,
+					Simulate: "num=150", Depth: 80, Seed: env.Seed + 7},
 				{Name: "gen:flags2x1", Module: "Framing", Cfg: "Framing_gen.cfg", Consts: substFlags(2, 1, 0, "max"), Workers: 4},
 				{Name: "sim:3x3+stall", Module: "Framing", Cfg: "Framing_gen.cfg", Consts: substFlags(3, 3, 1, "all"), Workers: 4,
 					Simulate: "num=300", Depth: 80, Seed: env.Seed},
@@ -1014,6 +1128,10 @@ func main() {
 				panic(err)
 			}
 			r := rand.New(rand.NewSource(env.Seed*1000003 + hashOf(raw)))
+			if src == "gen:msg1x2" || src == "sim:msg3x2" { // message transport: mostly through the real WebSocket wrappers, in every tier
+				tr := []string{"ws-c2s", "ws-s2c", "ws-c2s", "ws-s2c", "reader"}[r.Intn(5)]
+				return []json.RawMessage{fw.MustJSON(concretise(a, r, tr))}
+			}
 			out := []json.RawMessage{fw.MustJSON(concretise(a, r, "reader"))}
 			if env.Tier == "thorough" && r.Intn(8) == 0 {
 				out = append(out, fw.MustJSON(concretise(a, r, []string{"ws-c2s", "ws-s2c"}[r.Intn(2)])))
